@@ -95,7 +95,7 @@ def parse_tlc_output(out):
 def tlc(spec_dir, module, cfg, workers=1, timeout=900, env=None, xmx="4g", extra=None, deque=False, tag=None):
     meta = os.path.join(WORK, "tlcmeta", f"{module}-{tag or os.getpid()}-{time.time_ns() % 10**9}")
     os.makedirs(meta, exist_ok=True)
-    jopts = ["-XX:+UseParallelGC", "-Xss1g", f"-Xmx{xmx}", f"-DTLA-Library={LIBDIR}"]
+    jopts = ["-XX:+UseParallelGC", "-Xss1g", f"-Xmx{xmx}", "-DTLA-Library=" + os.pathsep.join([LIBDIR] + [os.path.join(ROOT, "spec", d) for d in ("doc", "codec", "term")])]
     if deque:
         jopts.append("-Dtlc2.tool.queue.IStateQueue=StateDeque")
     cmd = ["java"] + jopts + ["-cp", JAR, "tlc2.TLC", "-workers", str(workers), "-metadir", meta, "-cleanup", "-noGenerateSpecTE",
@@ -142,6 +142,9 @@ def generate(spec_dir, module, cfg, out_path, tagname="WITNESS", workers=1, time
     os.makedirs(os.path.dirname(out_path), exist_ok=True)
     tmp = out_path + ".tmp"
     with open(tmp, "w") as f:
+        for extra_tag in ("ALPHABET",):
+            for w in tagged.get(extra_tag, []):
+                f.write(json.dumps({"tag": extra_tag, **w}, separators=(",", ":")) + "\n")
         for w in tagged.get(tagname, []):
             f.write(json.dumps(w, separators=(",", ":")) + "\n")
     os.replace(tmp, out_path)
